@@ -3,8 +3,18 @@ package wire
 import (
 	"bytes"
 	"context"
+	"crypto"
+	"crypto/ecdsa"
+	"crypto/ed25519"
+	"crypto/elliptic"
+	"crypto/rand"
+	"crypto/rsa"
+	"crypto/x509"
+	"crypto/x509/pkix"
 	"encoding/json"
+	"encoding/pem"
 	"fmt"
+	"math/big"
 	"net"
 	"os"
 	"os/exec"
@@ -55,6 +65,17 @@ func runC05(t testing.TB, c C05Case) (key, what string, classes map[string]int) 
 		cfg.CertFile = filepath.Join(dir, "cert.txtar")
 	case "nested":
 		cfg.CertFile = filepath.Join(dir, "a", "b", "cert.txtar")
+	case "supplied-p384", "supplied-p521", "supplied-rsa", "supplied-ed25519":
+		// a key pair of another type than the program generates itself, made
+		// elsewhere and put where the cache is before the first run
+		cfg.CertFile = filepath.Join(dir, "cert.txtar")
+		certPEM, keyPEM, err := foreignKeyPair(strings.TrimPrefix(c.Cache, "supplied-"))
+		if err != nil {
+			return "HARNESS", err.Error(), classes
+		}
+		if err := sstls.SaveCertificate(cfg.CertFile, certPEM, keyPEM); err != nil {
+			return "HARNESS", err.Error(), classes
+		}
 	case "supplied", "chain", "expired":
 		// a cache that exists before the first run: a key pair made elsewhere
 		// ("supplied"), possibly with a second certificate after the leaf, as
@@ -382,7 +403,7 @@ func genC05() *rapid.Generator[C05Case] {
 			Listen: rapid.SampledFrom([]string{"127.0.0.1:0", "127.0.0.1", "[::1]:0", "::1", "0.0.0.0:0", "[::]:0", "localhost:0"}).Draw(t, "listen"),
 			Files:  rapid.Bool().Draw(t, "files"),
 			IPv6:   rapid.Bool().Draw(t, "ipv6"),
-			Cache:  rapid.SampledFrom([]string{"none", "fresh", "nested", "supplied", "chain", "expired"}).Draw(t, "cache"),
+			Cache:  rapid.SampledFrom([]string{"none", "fresh", "nested", "supplied", "chain", "expired", "supplied-p384", "supplied-p521", "supplied-rsa", "supplied-ed25519"}).Draw(t, "cache"),
 		}
 		for i := rapid.IntRange(0, 3).Draw(t, "ncb"); i > 0; i-- {
 			c.CBAddrs = append(c.CBAddrs, rapid.SampledFrom([]string{"cb.example", "cb.example:8443", "10.9.8.7", "10.9.8.7:444", "[2001:db8::5]:4444", "2001:db8::6", "other.test:1"}).Draw(t, "cb"))
@@ -438,4 +459,38 @@ func TestC05(t *testing.T) {
 			rt.Fatalf("%v", cc.Violation("TestC05", k, w, c, nil))
 		}
 	})
+}
+
+// foreignKeyPair makes a self-signed certificate for a fresh key of the given
+// type (p384 p521 rsa ed25519) and returns both PEM-encoded.
+func foreignKeyPair(kind string) (certPEM, keyPEM []byte, err error) {
+	var key crypto.Signer
+	switch kind {
+	case "p384":
+		key, err = ecdsa.GenerateKey(elliptic.P384(), rand.Reader)
+	case "p521":
+		key, err = ecdsa.GenerateKey(elliptic.P521(), rand.Reader)
+	case "rsa":
+		key, err = rsa.GenerateKey(rand.Reader, 2048)
+	default:
+		_, key, err = ed25519.GenerateKey(rand.Reader)
+	}
+	if err != nil {
+		return nil, nil, err
+	}
+	tmpl := &x509.Certificate{
+		SerialNumber: big.NewInt(time.Now().UnixNano()), Subject: pkix.Name{CommonName: "foreign " + kind},
+		NotBefore: time.Now().Add(-time.Hour), NotAfter: time.Now().Add(24 * time.Hour),
+		KeyUsage: x509.KeyUsageDigitalSignature, ExtKeyUsage: []x509.ExtKeyUsage{x509.ExtKeyUsageServerAuth},
+		DNSNames: []string{"localhost"},
+	}
+	der, err := x509.CreateCertificate(rand.Reader, tmpl, tmpl, key.Public(), key)
+	if err != nil {
+		return nil, nil, err
+	}
+	kb, err := x509.MarshalPKCS8PrivateKey(key)
+	if err != nil {
+		return nil, nil, err
+	}
+	return pem.EncodeToMemory(&pem.Block{Type: "CERTIFICATE", Bytes: der}), pem.EncodeToMemory(&pem.Block{Type: "PRIVATE KEY", Bytes: kb}), nil
 }
